@@ -6,7 +6,7 @@ import traceback
 
 from harness import common, diffexec, propkit
 
-VFILES = ["theories/Namespace.v", "theories/Lower.v", "theories/Depth.v", "theories/DepthElif.v"]
+VFILES = ["theories/Namespace.v", "theories/Lower.v", "theories/Depth.v", "theories/DepthElif.v", "theories/GuardNest.v"]
 
 # ---- the program families of the height theorems (Depth.v, DepthElif.v), written as Python source: the model's output for
 # them is compared with the real converter's output tree (equality), and the height the theorem states is measured on the REAL
